@@ -49,6 +49,15 @@ func storeScenarios(u idpUser) []scenario {
 			b.jarFromHeader(e.issueSessionCookie(s))
 			return reqSpec{Target: "/app/x", Cookie: b.cookieHeader()}, b
 		}},
+		{name: "refresh-nort", ops: []string{"load#1", "obtain#1", "load#2"}, setup: func(e *testEnv) (reqSpec, *browser) {
+			// a stale session WITHOUT a refresh token (its ID token still validates): re-read under the lock like any other — a store
+			// error, a corrupted value or a missing key (a concurrent sign-out) at that point is not overlooked
+			b := newBrowser()
+			s := e.sessionFor(u, 2*time.Hour)
+			s.RefreshToken = ""
+			b.jarFromHeader(e.issueSessionCookie(s))
+			return reqSpec{Target: "/app/x", Cookie: b.cookieHeader()}, b
+		}},
 		{name: "signout", ops: []string{"load#1", "clear#1"}, setup: func(e *testEnv) (reqSpec, *browser) {
 			b := newBrowser()
 			b.jarFromHeader(e.issueSessionCookie(e.sessionFor(u, 30*time.Second)))
@@ -136,7 +145,7 @@ func (e *testEnv) monitorStoreFault(sc scenario, plan map[string]string, dataFau
 	}
 	c.casen(fmt.Sprintf("c13|%v|%s|%v|%s", e.cfg.Redis, sc.name, plan, dataFault), sc.name+" "+fmt.Sprint(plan)+" "+dataFault+" => "+real)
 	// never forwarded as authenticated when the load that supplies the session failed
-	loadFault := faulted("load#1") || dataFault != "" || (sc.name == "refresh" && (faulted("load#2") || faulted("obtain#1")))
+	loadFault := faulted("load#1") || dataFault != "" || (strings.HasPrefix(sc.name, "refresh") && (faulted("load#2") || faulted("obtain#1")))
 	if loadFault && len(v.Hits) > 0 {
 		c.violation("C13", "request forwarded upstream although the session store failed / returned bad data", input)
 	}
@@ -874,6 +883,44 @@ func init() {
 						}
 						check(fl.name, "claim:"+cf.name, rs, b, v, real, must)
 						c.count("claimfault:" + cf.name)
+					}
+				}
+				// The profile endpoint is only consulted for claims the ID token LACKS: the same faults with a token that lacks the groups and
+				// preferred_username claims, on the login and on the refresh (whose answer carries such a token)
+				for _, fl := range flows[:2] {
+					for _, k := range kinds {
+						if k.name == "no-id-token" || k.name == "no-access-token" || k.name == "garbage-id-token" || k.name == "wrong-types" || k.name == "no-id-token-no-expiry" || k.name == "only-refresh-token" || strings.HasPrefix(k.name, "id-token-") {
+							continue
+						}
+						k := k
+						var rs reqSpec
+						var b *browser
+						lack := map[string]interface{}{"groups": nil, "preferred_username": nil}
+						if fl.name == "refresh" {
+							rs, b = fl.setup()
+							e.idp.mu.Lock()
+							e.idp.claimOverride, e.idp.refreshReturnsIDToken = lack, true
+							e.idp.mu.Unlock()
+						} else {
+							e.idp.mu.Lock()
+							e.idp.claimOverride = lack
+							e.idp.mu.Unlock()
+							rs, b = fl.setup()
+						}
+						e.idp.mu.Lock()
+						e.idp.fault = func(endpoint string, n int, w http.ResponseWriter, r *http.Request) bool {
+							if endpoint == "/userinfo" {
+								k.f(w, r)
+								return true
+							}
+							return false
+						}
+						e.idp.mu.Unlock()
+						v, real := e.serveCase(rs, nil, "idp:"+fl.name+":profile-needed:"+k.name)
+						resetIDP(e.idp)
+						hardFailure := k.name == "500" || k.name == "503-json" || k.name == "400" || k.name == "404" || k.name == "reset"
+						check(fl.name, "/userinfo(consulted):"+k.name, rs, b, v, real, hardFailure)
+						c.count("idpfault:profile-needed")
 					}
 				}
 				// Re-validation when the refresh failed: a stale session whose ID token does NOT verify against the provider's keys
